@@ -167,7 +167,11 @@ func (fr *frame) sprintf(format value, args []value) value {
 				}
 				if spec == "%#v" {
 					fr.i.st.noteStub("fmt %#v printed in println style with type prefix")
-					out = append(out, strBytes(it.t.String()+toStringSym(it.v))...)
+					if it.t == nil {
+						out = append(out, strBytes("<nil>")...)
+					} else {
+						out = append(out, strBytes(it.t.String()+toStringSym(it.v))...)
+					}
 					continue
 				}
 			}
